@@ -627,14 +627,27 @@ func (fc *FnCtx) trComposite(st *State, x *ast.CompositeLit) Val {
 	case SRec:
 		v := fc.freshVal(st, "lit", SRec, t)
 		st.fresh[v.Rec] = true
-		for _, el := range x.Elts {
-			kv, ok := el.(*ast.KeyValueExpr)
-			if !ok {
-				fc.errorf("%s: positional struct literal not supported", fc.pos(x))
+		var stt *types.Struct
+		if tt := t; tt != nil {
+			if p, ok := tt.Underlying().(*types.Pointer); ok {
+				tt = p.Elem()
+			}
+			stt, _ = tt.Underlying().(*types.Struct)
+		}
+		for ei, el := range x.Elts {
+			var fname string
+			var valueExpr ast.Expr
+			if kv, ok := el.(*ast.KeyValueExpr); ok {
+				fname = kv.Key.(*ast.Ident).Name
+				valueExpr = kv.Value
+			} else if stt != nil && ei < stt.NumFields() {
+				fname = stt.Field(ei).Name()
+				valueExpr = el
+			} else {
+				fc.errorf("%s: unsupported struct literal", fc.pos(x))
 				continue
 			}
-			fname := kv.Key.(*ast.Ident).Name
-			fv := fc.tr(st, kv.Value)
+			fv := fc.tr(st, valueExpr)
 			ft := fc.fieldType(t, fname)
 			if fv.S == SNil {
 				fv = zeroVal(fc, st, sortOf(ft), ft)
